@@ -362,6 +362,60 @@ def ill_sorted_script(rng, lg):
     return "\n".join(cmds) + "\n", "%s/%d: argument %d of sort %s where %s is expected, logic %s" % (sym, len(argsorts), k + 1, bad_sort, argsorts[k], lg)
 
 
+def ill_sorted_battery(rng, lg):
+    """stratified: every n-ary symbol x n in 2..4 x offending position first / middle / last (and the fixed-arity symbols at
+    every position), all in ONE script; each injected assert sits between two echo markers and must produce a diagnostic.
+    Returns (text, [(symbol, description, assert command)], declarations)."""
+    d, T = sort_universe(lg)
+    sorts = list(T)
+    pr = logic_profile(lg)
+    strata = []
+    for n in (2, 3, 4):
+        for sym in ("=", "distinct"):
+            strata.append((sym, [rng.choice(sorts)] * n, "Bool"))
+        strata.append(("and", ["Bool"] * n, "Bool"))
+        strata.append(("or", ["Bool"] * n, "Bool"))
+        if pr["arith"] and "DL" not in lg:
+            strata.append(("+", [pr["arith"]] * n, pr["arith"]))
+    if pr["arith"]:
+        strata += [("<=", [pr["arith"]] * 2, "Bool"), ("<", [pr["arith"]] * 2, "Bool")]
+    strata += [("not", ["Bool"], "Bool"), ("=>", ["Bool", "Bool"], "Bool"), ("ite", ["Bool", rng.choice(sorts), None], None)]
+    if "U" in T and pr["uf"]:
+        strata += [("f", ["U"], "U"), ("g", ["U", "V"], "Bool")]
+    if "(Array U V)" in T:
+        strata += [("select", ["(Array U V)", "U"], "V"), ("store", ["(Array U V)", "U", "V"], "(Array U V)")]
+    cases = []
+    for sym, argsorts, res in strata:
+        if sym == "ite":
+            argsorts = ["Bool", argsorts[1], argsorts[1]]
+            res = argsorts[1]
+        n = len(argsorts)
+        positions = sorted({0, n // 2, n - 1})
+        for k in positions:
+            others = [x for x in sorts if x != argsorts[k]]
+            if not others:
+                continue
+            bad = rng.choice(others)
+            used, args = set(), []
+            for j, s_ in enumerate(argsorts):
+                pool = T[bad] if j == k else T[s_]
+                pool2 = [t for t in pool if t not in used] or pool
+                t = rng.choice(pool2)
+                used.add(t)
+                args.append(t)
+            term = "(%s %s)" % (sym, " ".join(args))
+            if res != "Bool":
+                term = "(= %s %s)" % (term, rng.choice(T[res]))
+            wrap = rng.choice(["%s", "%s", "(not %s)", "(or p %s)"])
+            cases.append((sym, "%s/%d: argument %d of sort %s where %s is expected, logic %s" % (sym, n, k + 1, bad, argsorts[k], lg),
+                          "(assert %s)" % (wrap % term)))
+    cmds = ["(set-logic %s)" % lg] + d + ["(assert (or p q))"]
+    for i, (_, _, a) in enumerate(cases):
+        cmds += ["(echo \"@%d\")" % i, a]
+    cmds += ["(echo \"@end\")", "(check-sat)"]
+    return "\n".join(cmds) + "\n", cases, d
+
+
 # ------------------------------------------------------------------------------------------------
 # classification
 # ------------------------------------------------------------------------------------------------
@@ -658,7 +712,11 @@ def run(ctx):
         inputs.append(("after-rejected-setup", t, None, "FP"))
     # ill-sorted applications of n-ary symbols, offending argument at every position: the generator knows the input is ill-sorted
     il_logics = ["QF_UF", "QF_AX", "QF_UFLRA", "QF_UFLIA", "QF_LRA", "QF_LIA", "QF_ALIA", "QF_AUFLIA", "QF_RDL", "QF_IDL", "QF_ALRA", "QF_AUFLIRA"]
-    for _ in range(160 if ctx.quick else 2500):
+    for lg in il_logics:
+        for _ in range(1 if ctx.quick else 6):
+            text, cases_, decls = ill_sorted_battery(rng, lg)
+            inputs.append(("ill-sorted-battery", text, ("battery", lg, cases_, decls), "F" if rng.random() < 0.7 else "FP"))
+    for _ in range(60 if ctx.quick else 1500):
         r = ill_sorted_script(rng, rng.choice(il_logics))
         if r:
             inputs.append(("ill-sorted", r[0], "reject:" + r[1], "F" if rng.random() < 0.7 else "FP"))
@@ -714,8 +772,22 @@ def run(ctx):
                                                                               (r2[2] or err).strip().split("\n")[-1][:160]),
                                   dict(script=small, mode="file" if mode == "F" else "pipe (opensmt -p)", rc=r2[0], stdout=r2[1][:300], stderr=r2[2][:600],
                                        original=text if len(text) < 3000 else text[:3000]))
-            # 1b. the generator injected a sort error: silence is a violation
-            if expect and expect.startswith("reject:") and rc == 0 and not diag:
+            # 1b. the generator injected sort errors: silence is a violation
+            if isinstance(expect, tuple) and expect[0] == "battery" and rc in (0, 1):
+                _, lg_, cases_, decls_ = expect
+                segs = re.split(r"(?m)^@(\d+|end)\n", out)
+                # segs = [before, id0, text0, id1, text1, ...]; text_k = output between marker k and the next one
+                got = {segs[i]: segs[i + 1] for i in range(1, len(segs) - 1, 2)}
+                for i_, (sym, desc, acmd) in enumerate(cases_):
+                    seg = got.get(str(i_))
+                    if seg is not None and "(error " not in seg:
+                        mini = "\n".join(["(set-logic %s)" % lg_] + decls_ + [acmd, "(check-sat)"]) + "\n"
+                        r2 = runner(binary, mini, t_limit)
+                        ctx.violation("silent:ill-sorted-accepted:%s" % sym,
+                                      "an ill-sorted term is accepted without a diagnostic (%s): alone the command gives status %s, stdout %r"
+                                      % (desc, r2[0], r2[1][:80]),
+                                      dict(script=mini, mode=mode, injected=desc, stdout=r2[1][:300], rc=r2[0], battery=text[:3000]))
+            elif isinstance(expect, str) and expect.startswith("reject:") and rc == 0 and not diag:
                 sym = expect[7:].split("/")[0]
                 ctx.violation("silent:ill-sorted-accepted:%s" % sym,
                               "an ill-sorted term is accepted without a diagnostic, exit status 0 (%s); stdout %r" % (expect[7:], out[:80]),
